@@ -116,7 +116,7 @@ axiom('bnot', forall([m], z3.And(blen(bnot(m)) == blen(m), bcnt(bnot(m)) == blen
                                  forall([i], bat(bnot(m), i) == z3.Not(bat(m, i)), [bat(bnot(m), i)])), [bnot(m)]),
       ['bnot'])
 axiom('eqmask.len', forall([s, a], blen(eqmask(s, a)) == alen(s), [eqmask(s, a)]), ['eqmask'])
-axiom('eqmask.at', forall([s, a, i], bat(eqmask(s, a), i) == (aat(s, i) == a), [bat(eqmask(s, a), i)]), ['eqmask'])
+axiom('eqmask.at', forall([s, a, i], z3.Implies(z3.And(0 <= i, i < alen(s)), bat(eqmask(s, a), i) == (aat(s, i) == a)), [bat(eqmask(s, a), i)]), ['eqmask'])
 axiom('eqmask.mem', forall([s, a], amem(s, a) == (bcnt(eqmask(s, a)) > 0), [eqmask(s, a)]), ['eqmask'])
 axiom('eqmask.concat', forall([s, t, a], eqmask(aconcat(s, t), a) == bconcat(eqmask(s, a), eqmask(t, a)),
                               [eqmask(aconcat(s, t), a)]), ['eqmask'])
